@@ -301,8 +301,12 @@ func finish(c *mc.Check, total *mc.Report, seed int, start time.Time, machErr bo
 		"violations":  nviol,
 	}
 	eb, _ := json.MarshalIndent(ev, "", " ")
-	os.MkdirAll(filepath.Join(verifDir(), "evidence"), 0o755)
-	if err := os.WriteFile(filepath.Join(verifDir(), "evidence", prop+".json"), eb, 0o644); err != nil {
+	evDir := filepath.Join(verifDir(), "evidence")
+	if d := os.Getenv("VERIF_EVIDENCE_DIR"); d != "" {
+		evDir = d // runs against deliberately broken trees (bin/seed-run, bin/mutant) keep their evidence apart
+	}
+	os.MkdirAll(evDir, 0o755)
+	if err := os.WriteFile(filepath.Join(evDir, prop+".json"), eb, 0o644); err != nil {
 		fmt.Fprintln(os.Stderr, err)
 		return 2
 	}
